@@ -1,6 +1,6 @@
 // C11 — masked columns show only the allowed window to clients that cannot decrypt.
 //
-// Bounded-exhaustive enumeration on the real implementation, two phases:
+// Bounded-exhaustive enumeration on the real implementation, three phases:
 //
 //	A. every column configuration of a finite grid (masking pattern x plaintext_length x
 //	   plaintext_side x crypto_envelope x data_type) is written as YAML and loaded with the real
@@ -13,6 +13,17 @@
 //	   clear, envelope decrypts to exactly the hidden part under the owner's key only), and is then
 //	   read through the decryption subscriber chain the factories build (both with and without the
 //	   OldContainerDetectorWrapper) by the owner, a client with other keys and a client without keys.
+//	C. whole sessions (session.go): every way a value can be written into a masked column through
+//	   the real PostgreSQL and MySQL proxies (literal in the statement text, bound text parameter,
+//	   bound binary parameter, INSERT and UPDATE, prepared statements of MySQL) for every (value,
+//	   window 0..len+1) pair of the envelope-free part of the value menu x side x envelope x
+//	   (pattern, client binding) pair, the stored form taken from the reference database at the
+//	   database end and judged by the oracle of phase B, then the whole table read by each of the
+//	   three kinds of reader in a session of its own through every read way (simple / extended
+//	   protocol, text / binary results; COM_QUERY / prepared statement) and every row judged by the
+//	   reader oracle of phase B. Phases A and B never execute the protocol code that decides whether
+//	   the write chain's result replaces what the application sent (and which client id it is
+//	   called with), nor the result-row decoding / re-encoding around the read chain.
 //
 // The oracle is a reference model written from the property statement (see model(), expectedRead(),
 // checkStored()).
@@ -51,8 +62,10 @@ import (
 	"bytes"
 	"encoding/binary"
 	"fmt"
+	"os"
 	"sort"
 	"strings"
+	"time"
 
 	"gopkg.in/yaml.v2"
 
@@ -85,8 +98,12 @@ type cfgT struct {
 func sp(s string) *string { return &s }
 func ip(i int) *int       { return &i }
 
-func (c cfgT) yaml() []byte {
-	col := yaml.MapSlice{{Key: "column", Value: "m"}}
+func (c cfgT) yaml() []byte { return c.yamlFor("m", []string{"id", "m"}) }
+
+// yamlFor: the same configuration for a protected column named column in table t with the given
+// column list (the session phase uses the table layout of the session engines: id, plain, c).
+func (c cfgT) yamlFor(column string, columns []string) []byte {
+	col := yaml.MapSlice{{Key: "column", Value: column}}
 	if c.ClientID != "" {
 		col = append(col, yaml.MapItem{Key: "client_id", Value: c.ClientID})
 	}
@@ -105,7 +122,7 @@ func (c cfgT) yaml() []byte {
 	}
 	doc := yaml.MapSlice{{Key: "schemas", Value: []yaml.MapSlice{{
 		{Key: "table", Value: "t"},
-		{Key: "columns", Value: []string{"id", "m"}},
+		{Key: "columns", Value: columns},
 		{Key: "encrypted", Value: []yaml.MapSlice{col}},
 	}}}}
 	b, err := yaml.Marshal(doc)
@@ -671,7 +688,7 @@ type stateT struct {
 }
 
 type replayT struct {
-	Stage  string `json:"stage"` // config | write | read
+	Stage  string `json:"stage"` // config | write | read | session
 	Cfg    cfgT   `json:"config"`
 	VName  string `json:"value_name,omitempty"`
 	VCls   string `json:"value_class,omitempty"`
@@ -680,6 +697,11 @@ type replayT struct {
 	Chain  string `json:"chain,omitempty"`
 	Stored string `json:"stored_hex_of_this_run,omitempty"`
 	Out    string `json:"out_hex_of_this_run,omitempty"`
+	// session phase (session.go): protocol, write way (Chain holds the read way) and the generalised
+	// key parts the full run chose for the finding this case stands for
+	Proto  string     `json:"protocol,omitempty"`
+	Way    string     `json:"write_way,omitempty"`
+	Labels *[2]string `json:"key_labels,omitempty"`
 }
 
 type chainVar struct {
@@ -788,16 +810,7 @@ func (l *labT) evalState(s stateT, setting config.ColumnEncryptionSetting, mask 
 			readKeyBase = "C11/read/window-holds-garbage-container-header"
 		}
 	}
-	leak := map[byte]bool{}
-	for _, b := range m.hidden {
-		leak[b] = true
-	}
-	for _, b := range m.clear {
-		delete(leak, b)
-	}
-	for _, b := range pattern {
-		delete(leak, b)
-	}
+	leak := leakSet(m, pattern)
 	for _, cv := range l.chains {
 		if v.RawOnly && !cv.Old {
 			// an old-format envelope is only recognised by the wrapper the factories always install
@@ -848,31 +861,7 @@ func (l *labT) evalState(s stateT, setting config.ColumnEncryptionSetting, mask 
 			case ro.Err != nil:
 				class = "error"
 			default:
-				exp := expectedRead(m, reader, owner, pattern, l.envs)
-				if v.RawOnly && m.pass != nil {
-					// whole old-format envelope: same rule
-					exp = expectedRead(m, reader, owner, pattern, l.envs)
-				}
-				switch {
-				case bytes.Equal(out, exp):
-					class = "ok"
-				case isOwner && bytes.Equal(out, expectedRead(m, fx.NoKeys, owner, pattern, l.envs)):
-					class = "masked-for-owner"
-				case isOwner && bytes.Equal(out, stored):
-					class = "stored-form-for-owner"
-				case isOwner:
-					class = "owner-other-bytes"
-				case bytes.Equal(out, v.Data):
-					class = "full-plaintext"
-				case bytes.Equal(out, stored):
-					class = "stored-form-delivered"
-				case menv != nil && leaksRun(out, menv, exp, 4):
-					class = "ciphertext-leak"
-				case containsAny(out, leak):
-					class = "hidden-plaintext-leak"
-				default:
-					class = "wrong-shape"
-				}
+				class = readClass(m, v, out, stored, menv, reader, owner, pattern, leak, l.envs)
 			}
 			oc := class
 			if strings.HasPrefix(oc, "panic:") {
@@ -890,6 +879,49 @@ func (l *labT) evalState(s stateT, setting config.ColumnEncryptionSetting, mask 
 			}
 		}
 	}
+}
+
+// leakSet: the bytes of the hidden part that occur neither in the clear window nor in the pattern
+// (any of them in what a reader without the key gets is a hidden plaintext byte).
+func leakSet(m modelT, pattern []byte) map[byte]bool {
+	leak := map[byte]bool{}
+	for _, b := range m.hidden {
+		leak[b] = true
+	}
+	for _, b := range m.clear {
+		delete(leak, b)
+	}
+	for _, b := range pattern {
+		delete(leak, b)
+	}
+	return leak
+}
+
+// readClass compares what a reader received (out) with what the property statement prescribes and
+// names the kind of difference. stored is the stored form of the value, menv the masking envelope
+// inside it (nil when the stored form is not as the model says).
+func readClass(m modelT, v valueT, out, stored, menv, reader, owner, pattern []byte, leak map[byte]bool, envs map[string]knownEnv) string {
+	isOwner := bytes.Equal(reader, owner)
+	exp := expectedRead(m, reader, owner, pattern, envs)
+	switch {
+	case bytes.Equal(out, exp):
+		return "ok"
+	case isOwner && bytes.Equal(out, expectedRead(m, fx.NoKeys, owner, pattern, envs)):
+		return "masked-for-owner"
+	case isOwner && bytes.Equal(out, stored):
+		return "stored-form-for-owner"
+	case isOwner:
+		return "owner-other-bytes"
+	case bytes.Equal(out, v.Data):
+		return "full-plaintext"
+	case bytes.Equal(out, stored):
+		return "stored-form-delivered"
+	case menv != nil && leaksRun(out, menv, exp, 4):
+		return "ciphertext-leak"
+	case containsAny(out, leak):
+		return "hidden-plaintext-leak"
+	}
+	return "wrong-shape"
 }
 
 func hexDecode(b []byte) ([]byte, error) {
@@ -1040,6 +1072,7 @@ func (l *labT) checkStored(s stateT, m modelT, wo envl.Outcome, owner []byte) st
 
 func main() {
 	r := ev.New("C11", "model_checking")
+	t0 := time.Now()
 	fx.Quiet()
 	w := fx.NewWorld(fx.Options{Seed: "c11", Rotations: 1})
 	defer w.Close()
@@ -1089,6 +1122,10 @@ func main() {
 			fmt.Printf("replay config: %s\n%s", rp.Cfg, rp.Cfg.yaml())
 			checkConfig(r, rp.Cfg)
 			r.States(1)
+			r.Finish()
+		}
+		if rp.Stage == "session" {
+			(&sessPhase{l: l, r: r, thorough: true}).replay(rp)
 			r.Finish()
 		}
 		ld := load(rp.Cfg)
@@ -1222,13 +1259,21 @@ func main() {
 	if done < len(jobs) {
 		r.Capped(fmt.Sprintf("wall budget: %d of %d behaviour states done", done, len(jobs)))
 	}
+	// ---- phase C: whole sessions through both proxies (session.go)
+	tC := time.Now()
+	(&sessPhase{l: l, r: r, thorough: r.Thorough()}).all()
+	if os.Getenv("VERIF_TIMING") != "" { // developer aid, never an oracle
+		fmt.Fprintf(os.Stderr, "C11 timing: phases A+B %.1fs, phase C %.1fs\n", tC.Sub(t0).Seconds(), time.Since(tC).Seconds())
+	}
+
 	var chainNames []string
 	for _, cv := range l.chains {
 		chainNames = append(chainNames, cv.Name)
 	}
 	r.Rule("phase A: state = one column configuration of the grid {masking absent|''|patterns} x {plaintext_length absent,-1,0,1,7 (thorough: more)} x {plaintext_side absent,left,right,middle,'' (thorough: more)} x {acrastruct,acrablock} x data_type {absent,int32 (thorough: str,bytes,int64)} (thorough: PostgreSQL and MySQL loader flavour), transition = load by config.MapTableSchemaStoreFromConfig, oracle = documented accept/reject rule and getters; " +
 		"phase B: state = (masking configuration: pattern x plaintext_length 0..len(value)+1 x side x envelope x client binding {writer's connection, client_id in config}) x value of the menu; transitions = 1 write through the factory write chain + one read per (chain variant, reader in {alpha_1 owner, bravo_2 other keys, nokeys_9}); " +
-		"distinct_nontrivial counts distinct (step, side, envelope, window class, reader, chain, outcome class) tuples and (expected, actual, rule) config decisions")
+		"phase C (sessions): state = (protocol {PostgreSQL, MySQL}) x (masking configuration: (pattern, client binding) pair x side x envelope x plaintext_length) x (value of the menu without envelope-carrying values, written under the window n iff n is in 0..len+1 for values up to 6 bytes (thorough: 40), else n in {0,1,len-1,len,len+1}) x write way (literal / bound text parameter / bound binary parameter, INSERT / UPDATE; MySQL: literal spellings and prepared-statement parameter types); transitions = the lock-step exchanges of one writer session per (protocol, configuration) that writes every (value, way) as its own row, plus one session per reader in {alpha_1 owner, bravo_2 other keys, nokeys_9} that reads the whole table every read way; oracle evaluations = one per write (went through), one per stored row (stored-form oracle of phase B on the reference database's cell), one per (row, reader, read way) (reader oracle of phase B); " +
+		"distinct_nontrivial counts distinct (step, side, envelope, window class, reader, chain, outcome class) tuples, (expected, actual, rule) config decisions and, for sessions, (protocol, stage, write way, read way, side, envelope, window class zero|inside|equal|beyond, reader, outcome class) tuples")
 	r.Set("patterns", bpatterns)
 	r.Set("read_chains", chainNames)
 	r.Set("max_value_len", maxLen)
@@ -1236,6 +1281,8 @@ func main() {
 	r.Assume("Themis is replaced by the pure-Go stand-in /verif/shim/gothemis (AEAD assumption)",
 		"the chains are assembled by verif/envl (FactoryWriteChain/FactoryReadChain) from the same constructors, in the same order, as decryptor/postgresql/proxy.go and decryptor/mysql/proxy.go; wire encode/decode of result rows is outside (thorough adds the PostgreSQL decoder/encoder subscribers around the detector)",
 		"whole envelopes the application put into a value follow Acra's inline-envelope rule (decrypted for the key holder, replaced by the pattern for others); a hidden part that is exactly one whole envelope may be stored as is",
+		"phase C: the proxies are the real ones (factories built by verif/sess the way cmd/acra-server does, both pumps running on in-memory connections); the database end is the reference database of verif/sess (PostgreSQL, pg_query based) / the scripted database of verif/mycheck (MySQL) with table t(id int, plain text, c bytea|BLOB); client side and database side use codecs independent of Acra (pgproto3, verif/sess/mycodec.go); no TLS, client identity given to the proxy factory directly",
+		"phase C: a bytea result in text format may be spelled in hex or escape form (decoded before comparison); column announcements are not judged (C04, C19); values that carry envelopes or container headers are left to phase B (their reader rule depends on where the window cuts them); quick pairs pattern 'xxxx' with the writer-owns binding and '*' with client_id alpha_1 (bravo_2 writes), thorough takes the full product over five patterns",
 		"the negative stored-form requirement is checked structurally (clear window byte-exact, the rest is one serialized container of the configured type whose length equals that of a container around len(hidden) bytes and which decrypts to the hidden part under the owner's key only) plus absence of any 6-byte run of the hidden part")
 	r.Finish()
 }
